@@ -15,6 +15,15 @@
  *   library; p_atomic_pointer_compare_and_exchange is wrapped so that `T kbegin …` parks thread T
  *   right before the publishing CAS of pp_uthread_get_tls_key and `T kcas` lets it go: the op file
  *   decides who loses the race.
+ * - `A jbegin H` issues p_uthread_join in thread A while the target has NOT ended: the call must stay blocked
+ *   (also across a handled signal sent to the joiner) until `T end`; `A jend` collects the result.  A join that
+ *   came back before the target's `end` op is answered `early:<code>`.
+ * - `create` options: `n<LEN>` name of LEN characters (the platform limit is 15), `J` joinable given as 2,
+ *   `p<PRIO>` / `s<KB>` go through p_uthread_create_full, `x` lets the new thread run into the library's proxy
+ *   while the creator is still inside p_uthread_create_full (p_spinlock_lock is wrapped: the creator returns from
+ *   the native create only once the child has reached the creation spinlock), `eperm` makes the first native
+ *   create fail with EPERM (the library retries), `eagain` makes it fail for good (create returns NULL).
+ * - `A prio H P` calls p_uthread_set_priority on a library-created thread that has not ended (no effect on handles).
  * - every case (ops up to `reset`) runs in a forked child; a sanitizer abort ends the whole run with
  *   the child's status.
  * Ops that are not enabled, or that break the reference discipline (use of a handle without holding a
@@ -32,6 +41,7 @@
 #include <errno.h>
 #include <signal.h>
 #include <sys/wait.h>
+#include <time.h>
 
 int __real_pthread_create (pthread_t *, const pthread_attr_t *, void *(*) (void *), void *);
 int __real_pthread_key_create (pthread_key_t *, void (*) (void *));
@@ -39,12 +49,29 @@ int __real_pthread_key_delete (pthread_key_t);
 int __real_pthread_setspecific (pthread_key_t, const void *);
 void *__real_pthread_getspecific (pthread_key_t);
 pboolean __real_p_atomic_pointer_compare_and_exchange (volatile void *, ppointer, ppointer);
+pboolean __real_p_spinlock_lock (PSpinLock *);
 extern void p_uthread_shutdown (void);          /* puthread.c (called by p_libsys_shutdown) */
+
+/* strings handed to intercepted libc calls (pthread_setname_np: the truncated thread name) must be terminated inside their block */
+const char *__asan_default_options (void) { return "strict_string_checks=1"; }
 
 static FILE *out;
 #define DIE(...) do { fprintf (stderr, "uthread harness: " __VA_ARGS__); fprintf (stderr, "\n"); _exit (3); } while (0)
 
 static void swait (sem_t *s) { while (sem_wait (s) != 0) if (errno != EINTR) DIE ("sem_wait"); }
+/* 1 = posted within `ms` milliseconds */
+static int timed_wait (sem_t *s, int ms) {
+	struct timespec ts;
+	clock_gettime (CLOCK_REALTIME, &ts);
+	ts.tv_nsec += (long) ms * 1000000L;
+	while (ts.tv_nsec >= 1000000000L) { ts.tv_sec++; ts.tv_nsec -= 1000000000L; }
+	for (;;) {
+		if (sem_timedwait (s, &ts) == 0) return 1;
+		if (errno == ETIMEDOUT) return 0;
+		if (errno != EINTR) DIE ("sem_timedwait");
+	}
+}
+static void on_usr1 (int sig) { (void) sig; }
 
 /* ------------------------------------------------------------------ tracking allocator */
 #define MAXB 8192
@@ -97,14 +124,18 @@ static void nat (const char *fmt, ...) {
 
 /* ------------------------------------------------------------------ threads */
 enum { ABSENT, CREATED, RUNNING, FINISHED, ENDED };
-enum { O_NONE, O_CREATE, O_SET, O_REPLACE, O_GET, O_CURRENT, O_EXIT, O_RETURN, O_REF, O_UNREF, O_JOIN, O_KEYNEW, O_KEYFREE, O_RACE };
+enum { O_NONE, O_CREATE, O_SET, O_REPLACE, O_GET, O_CURRENT, O_EXIT, O_RETURN, O_REF, O_UNREF, O_JOIN, O_KEYNEW, O_KEYFREE, O_RACE, O_PRIO };
 typedef struct {
 	int kind, k, h, joinable, named, notif; long code; unsigned long v;
+	int jv, namelen, full, prio, cmode; unsigned long stack;      /* create options */
 	char res[48];
 } Op;
 typedef struct {
 	int state, foreign, round, pending, arm_cas, at_cas, cas_result;
-	sem_t cmd, done, start_gate, end_gate, cas_gate;
+	int joining, join_h;                            /* inside the p_uthread_join of `jbegin` (2: it came back early) */
+	volatile int early;                             /* `create … x`: 1 = runs into the proxy at once, 2 = reached the spinlock */
+	pthread_t self;
+	sem_t cmd, done, start_gate, end_gate, cas_gate, spin_sem;
 	Op op;
 	void *(*fn) (void *); void *arg;
 	pthread_t raw;
@@ -119,7 +150,8 @@ static volatile int race_go;
 
 #define MAXH 256
 static PUThread *hptr[MAXH]; static int nextH;
-static int urefs[MAXH], hthread[MAXH], hjoinable[MAXH], hjoined[MAXH], hthreadref[MAXH];
+static int urefs[MAXH], hthread[MAXH], hjoinable[MAXH], hjoined[MAXH], hthreadref[MAXH], hours[MAXH];
+static int create_mode;                                 /* 0 normal, 1 early child, 2 EAGAIN, 3 EPERM once */
 #define MAXK 32
 static PUThreadKey *kptr[MAXK]; static int nextK = 1, kfreed[MAXK];
 static int last_created_slot;
@@ -178,6 +210,13 @@ pboolean __wrap_p_atomic_pointer_compare_and_exchange (volatile void *a, ppointe
 	return r;
 }
 
+/* the creation spinlock: a child made by `create … x` reports that it has reached it */
+pboolean __wrap_p_spinlock_lock (PSpinLock *l) {
+	Slot *s = &slots[my_slot];
+	if (s->early == 1) { s->early = 2; sem_post (&s->spin_sem); }
+	return __real_p_spinlock_lock (l);
+}
+
 /* ---- thread termination gate: first destructor of round one, and a second-round call */
 static void gate_dtor (void *v) {
 	Slot *s = v;
@@ -210,6 +249,7 @@ static void *tramp (void *b) {
 	free (b);
 	my_slot = bx.slot;
 	Slot *s = &slots[my_slot];
+	s->self = pthread_self ();
 	__real_pthread_setspecific (gate_key, s);
 	if (!s->foreign) swait (&s->start_gate);         /* `T start`: only now the library's proxy runs */
 	return bx.fn (bx.arg);
@@ -221,19 +261,31 @@ static int new_slot (int foreign) {
 	memset (s, 0, sizeof *s);
 	s->foreign = foreign; s->state = foreign ? RUNNING : CREATED;
 	sem_init (&s->cmd, 0, 0); sem_init (&s->done, 0, 0); sem_init (&s->start_gate, 0, 0);
-	sem_init (&s->end_gate, 0, 0); sem_init (&s->cas_gate, 0, 0);
+	sem_init (&s->end_gate, 0, 0); sem_init (&s->cas_gate, 0, 0); sem_init (&s->spin_sem, 0, 0);
 	return id;
 }
 int __wrap_pthread_create (pthread_t *t, const pthread_attr_t *attr, void *(*fn) (void *), void *arg) {
+	if (create_mode == 2) return EAGAIN;
+	if (create_mode == 3) { create_mode = 0; return EPERM; }
 	int id = new_slot (0);
+	int early = create_mode == 1;
 	Box *b = malloc (sizeof *b);
 	b->slot = id; b->fn = fn; b->arg = arg;
 	last_created_slot = id;
-	return __real_pthread_create (t, attr, tramp, b);
+	slots[id].early = early;
+	int r = __real_pthread_create (t, attr, tramp, b);
+	if (r == 0 && early) {
+		/* the caller is inside p_uthread_create_full and holds the creation spinlock: nothing but pthread_t is
+		 * written yet.  Let the child run the proxy up to the spinlock, give it time to spin, then go on. */
+		sem_post (&slots[id].start_gate);
+		swait (&slots[id].spin_sem);
+		usleep (300);
+	}
+	return r;
 }
 
 /* ---- handle bookkeeping */
-static int tag_handle (PUThread *p, int thread, int joinable, int ur) {
+static int tag_handle (PUThread *p, int thread, int joinable, int ur, int ours) {
 	pthread_mutex_lock (&amx);
 	int i = blk_find (p);
 	if (i < 0) DIE ("handle pointer is not a live block");
@@ -242,7 +294,7 @@ static int tag_handle (PUThread *p, int thread, int joinable, int ur) {
 	int id = nextH++;
 	blks[i].tag = 'H'; blks[i].id = id;
 	pthread_mutex_unlock (&amx);
-	hptr[id] = p; urefs[id] = ur; hthread[id] = thread; hjoinable[id] = joinable; hjoined[id] = 0; hthreadref[id] = 1;
+	hptr[id] = p; urefs[id] = ur; hthread[id] = thread; hjoinable[id] = joinable; hjoined[id] = 0; hthreadref[id] = 1; hours[id] = ours;
 	return id;
 }
 
@@ -259,10 +311,21 @@ static void exec_op (Slot *s) {
 	cur_k = (o->kind == O_SET || o->kind == O_REPLACE || o->kind == O_GET || o->kind == O_RACE) ? o->k : 0;
 	switch (o->kind) {
 	case O_CREATE: {
-		PUThread *p = p_uthread_create (worker, NULL, o->joinable, o->named ? "w" : NULL);
-		if (p == NULL) DIE ("p_uthread_create failed");
+		char nbuf[1024], *name = NULL;
+		if (o->named) {
+			if (o->namelen < 0) name = "w";
+			else { for (int i = 0; i < o->namelen; i++) nbuf[i] = (char) ('a' + i % 26); nbuf[o->namelen] = 0; name = nbuf; }
+		}
+		create_mode = o->cmode;
+		PUThread *p = o->full ? p_uthread_create_full (worker, NULL, o->jv, (PUThreadPriority) o->prio, (psize) o->stack, name)
+				      : p_uthread_create (worker, NULL, o->jv, name);
+		create_mode = 0;
+		if (p == NULL) {
+			if (o->cmode == 2) { strcpy (o->res, "NULL"); break; }
+			DIE ("p_uthread_create failed");
+		}
 		int t = last_created_slot;
-		int h = tag_handle (p, t, o->joinable, 1);
+		int h = tag_handle (p, t, o->joinable, 1, 1);
 		snprintf (o->res, 48, "T%d,H%d", t, h);
 		break; }
 	case O_SET: case O_REPLACE: case O_GET: tls_call (o->kind, kptr[o->k], o->v, o->res); break;
@@ -273,12 +336,12 @@ static void exec_op (Slot *s) {
 	case O_CURRENT: {
 		PUThread *p = p_uthread_current ();
 		if (p == NULL) DIE ("p_uthread_current failed");
-		snprintf (o->res, 48, "H%d", tag_handle (p, my_slot, 0, 0));
+		snprintf (o->res, 48, "H%d", tag_handle (p, my_slot, 0, 0, 0));
 		break; }
 	case O_EXIT:
 		if (s->foreign || my_slot == 0) {
 			PUThread *p = p_uthread_current ();
-			tag_handle (p, my_slot, 0, 0);
+			tag_handle (p, my_slot, 0, 0, 0);
 			p_uthread_exit ((pint) o->code);        /* returns: not one of ours */
 			strcpy (o->res, "noexit");
 		} else {
@@ -289,6 +352,7 @@ static void exec_op (Slot *s) {
 	case O_REF: p_uthread_ref (hptr[o->h]); break;
 	case O_UNREF: p_uthread_unref (hptr[o->h]); break;
 	case O_JOIN: snprintf (o->res, 48, "%d", (int) p_uthread_join (hptr[o->h])); break;
+	case O_PRIO: (void) p_uthread_set_priority (hptr[o->h], (PUThreadPriority) o->prio); break;
 	case O_KEYNEW: {
 		PDestroyFunc f = NULL;
 		if (o->notif) { if (nnotif >= 16) DIE ("too many notifier keys"); notif_key[nnotif] = nextK; f = notif_fn[nnotif++]; }
@@ -360,14 +424,15 @@ static void run_case (char **lines, int n) {
 	PMemVTable vt = { t_malloc, t_realloc, t_free };
 	if (__real_pthread_key_create (&gate_key, gate_dtor) != 0) DIE ("gate key");
 	memset (slots, 0, sizeof slots);
-	slots[0].state = RUNNING; slots[0].foreign = 1;
+	slots[0].state = RUNNING; slots[0].foreign = 1; slots[0].self = pthread_self ();
+	{ struct sigaction sa; memset (&sa, 0, sizeof sa); sa.sa_handler = on_usr1; sigemptyset (&sa.sa_mask); sigaction (SIGUSR1, &sa, NULL); }
 	p_libsys_init_full (&vt);
 	for (int i = 0; i < nblk; i++) if (blks[i].tag == 0) baseline++;
-	alarm (60);
+	alarm (30);                                     /* a history takes milliseconds; a hang (a lock kept, a lost hand-off) ends the case */
 	for (int li = 0; li < n; li++) {
-		char w[8][32]; int nw;
+		char w[9][32]; int nw;
 		memset (w, 0, sizeof w);
-		nw = sscanf (lines[li], "%31s %31s %31s %31s %31s %31s %31s", w[0], w[1], w[2], w[3], w[4], w[5], w[6]);
+		nw = sscanf (lines[li], "%31s %31s %31s %31s %31s %31s %31s %31s", w[0], w[1], w[2], w[3], w[4], w[5], w[6], w[7]);
 		if (nw < 1) continue;
 		begin_op ();
 		if (shut_comp) { bad (); continue; }            /* nothing of the thread API may be used after shutdown */
@@ -384,7 +449,7 @@ static void run_case (char **lines, int n) {
 		if (!strcmp (w[0], "race") && nw == 6) {
 			int k = atoi (w[1]), t1 = atoi (w[2]), t2 = atoi (w[4]);
 			if (t1 == t2 || t1 <= 0 || t2 <= 0 || t1 >= nextT || t2 >= nextT || slots[t1].state != RUNNING || slots[t2].state != RUNNING
-			    || slots[t1].pending || slots[t2].pending || !key_ok (k)) { bad (); continue; }
+			    || slots[t1].pending || slots[t2].pending || slots[t1].joining || slots[t2].joining || !key_ok (k)) { bad (); continue; }
 			race_go = 0;
 			if (!kpub[k]) kraced[k] = 1;          /* how many native keys this first use creates is up to the scheduler */
 			slots[t1].op.kind = O_RACE; slots[t1].op.k = k; slots[t1].op.v = strtoul (w[3], NULL, 10);
@@ -399,7 +464,7 @@ static void run_case (char **lines, int n) {
 		}
 		if (nw == 2 && !strcmp (w[1], "shutdown")) {
 			int pend = 0;
-			for (int t = 1; t < nextT; t++) if (slots[t].pending) pend = 1;
+			for (int t = 1; t < nextT; t++) if (slots[t].pending || slots[t].joining) pend = 1;
 			if (strcmp (w[0], "0") || pend) { bad (); continue; }
 			cur_k = 0;
 			p_uthread_shutdown ();                  /* unref of the caller's handle, local_free of the library key, spinlock */
@@ -413,11 +478,28 @@ static void run_case (char **lines, int n) {
 		Slot *s = &slots[a];
 		const char *op = w[1];
 		if (s->pending && strcmp (op, "kcas")) { bad (); continue; }
+		if (s->joining && strcmp (op, "jend")) { bad (); continue; }
 		int running = s->state == RUNNING;
-		if (!strcmp (op, "create") && (nw == 3 || nw == 4)) {
-			if (!running || (strcmp (w[2], "j") && strcmp (w[2], "d")) || (nw == 4 && strcmp (w[3], "n"))) { bad (); continue; }
-			o.kind = O_CREATE; o.joinable = !strcmp (w[2], "j"); o.named = nw == 4;
-			dispatch (a, &o); answer (o.res, "", 1);
+		if (!strcmp (op, "create") && nw >= 3) {
+			int okc = running && (!strcmp (w[2], "j") || !strcmp (w[2], "d") || !strcmp (w[2], "J"));
+			o.kind = O_CREATE; o.joinable = strcmp (w[2], "d") != 0; o.jv = !strcmp (w[2], "J") ? 2 : o.joinable;
+			o.namelen = -1;
+			for (int i = 3; i < nw && okc; i++) {
+				const char *x = w[i];
+				int digits = x[1] != 0 && strspn (x + 1, "0123456789") == strlen (x + 1) && strlen (x + 1) <= 4;
+				if (!strcmp (x, "n")) o.named = 1;
+				else if (x[0] == 'n' && digits && atoi (x + 1) <= 1000) { o.named = 1; o.namelen = atoi (x + 1); }
+				else if (!strcmp (x, "x")) o.cmode = o.cmode ? 99 : 1;
+				else if (!strcmp (x, "eagain")) o.cmode = o.cmode ? 99 : 2;
+				else if (!strcmp (x, "eperm")) o.cmode = o.cmode ? 99 : 3;
+				else if (x[0] == 'p' && digits && atoi (x + 1) <= 7) { o.full = 1; o.prio = atoi (x + 1); }
+				else if (x[0] == 's' && digits) { o.full = 1; o.stack = (unsigned long) atoi (x + 1) * 1024UL; }
+				else okc = 0;
+			}
+			if (!okc || o.cmode == 99) { bad (); continue; }
+			dispatch (a, &o);
+			if (o.cmode == 1) { Slot *c = &slots[last_created_slot]; swait (&c->done); c->state = RUNNING; }
+			answer (o.res, "", 1);
 		} else if (!strcmp (op, "start") && nw == 2) {
 			if (s->state != CREATED) { bad (); continue; }
 			sem_post (&s->start_gate); swait (&s->done); s->state = RUNNING;
@@ -447,6 +529,8 @@ static void run_case (char **lines, int n) {
 			answer ("-", "", 1);
 		} else if (!strcmp (op, "end") && nw == 2) {
 			if (s->state != FINISHED) { bad (); continue; }
+			for (int t = 1; t < nextT; t++)         /* a join of this thread that is already back returned before the thread finished */
+				if (slots[t].joining == 1 && hthread[slots[t].join_h] == (int) a && sem_trywait (&slots[t].done) == 0) slots[t].joining = 2;
 			sem_post (&s->end_gate); swait (&s->done); s->state = ENDED;
 			for (int h = 0; h < nextH; h++) if (hthread[h] == a) hthreadref[h] = 0;
 			answer ("-", "", 1);
@@ -457,7 +541,9 @@ static void run_case (char **lines, int n) {
 				if (!permitted_use (a, h)) { bad (); continue; }
 				o.kind = O_REF; o.h = h; dispatch (a, &o); urefs[h]++; answer ("-", "", 1);
 			} else if (!strcmp (op, "unref")) {
-				if (urefs[h] <= 0) { bad (); continue; }
+				int needed = 0;                 /* the reference a blocked joiner relies on may not go */
+				for (int t = 1; t < nextT; t++) if (slots[t].joining && slots[t].join_h == h) needed = 1;
+				if (urefs[h] <= 0 || (needed && urefs[h] == 1)) { bad (); continue; }
 				o.kind = O_UNREF; o.h = h; urefs[h]--; dispatch (a, &o); answer ("-", "", 1);
 			} else {
 				if (!permitted_use (a, h) || hjoined[h]) { bad (); continue; }
@@ -466,6 +552,29 @@ static void run_case (char **lines, int n) {
 				if (hjoinable[h]) hjoined[h] = 1;
 				answer (o.res, "", 1);
 			}
+		} else if (!strcmp (op, "jbegin") && nw == 3) {
+			int h = atoi (w[2]);
+			if (!running || a == 0 || h < 0 || h >= nextH || !permitted_use (a, h) || hjoined[h] || !hjoinable[h]) { bad (); continue; }
+			int tt = hthread[h];
+			if (tt == a || slots[tt].state == ENDED || slots[tt].joining) { bad (); continue; }
+			o.kind = O_JOIN; o.h = h; s->op = o; s->joining = 1; s->join_h = h; hjoined[h] = 1;
+			sem_post (&s->cmd);
+			int early = timed_wait (&s->done, 3);
+			if (!early) { pthread_kill (s->self, SIGUSR1); early = timed_wait (&s->done, 2); }   /* a handled signal must not end the wait */
+			if (early) { char r[64]; s->joining = 2; snprintf (r, 64, "early:%s", s->op.res); answer (r, "", 1); }
+			else answer ("blocked", "", 1);
+		} else if (!strcmp (op, "jend") && nw == 2) {
+			if (!s->joining || slots[hthread[s->join_h]].state != ENDED) { bad (); continue; }
+			if (s->joining == 1) swait (&s->done);
+			char r[64];
+			if (s->joining == 2) snprintf (r, 64, "early:%s", s->op.res); else snprintf (r, 64, "%s", s->op.res);
+			s->joining = 0;
+			answer (r, "", 1);
+		} else if (!strcmp (op, "prio") && nw == 4) {
+			int h = atoi (w[2]), pr = atoi (w[3]);
+			if (!running || h < 0 || h >= nextH || !permitted_use (a, h) || !hours[h] || slots[hthread[h]].state == ENDED
+			    || strlen (w[3]) != 1 || w[3][0] < '0' || w[3][0] > '7') { bad (); continue; }
+			o.kind = O_PRIO; o.h = h; o.prio = pr; dispatch (a, &o); answer ("-", "", 1);
 		} else if (!strcmp (op, "keynew") && nw == 3) {
 			if (!running || (strcmp (w[2], "n") && strcmp (w[2], "x")) || nextK >= MAXK) { bad (); continue; }
 			o.kind = O_KEYNEW; o.notif = !strcmp (w[2], "n"); dispatch (a, &o); answer (o.res, "", 1);
